@@ -46,3 +46,13 @@ Definition PhiI_series (x : I.type) : I.type :=
       end
   | SUnk => I.nai
   end.
+
+(* What the external engine computes INSTEAD of Phi for x >= 6 (known defect: sign error in the
+   upper-tail branch, it returns 1 + (1 - Phi x)).  Used only to CLASSIFY a disagreement found by
+   the streams as an occurrence of that known finding; never used as the reference. *)
+Definition PhiI_engine_defect (x : I.type) : I.type :=
+  match isign (I.sub prec x (I.fromZ prec 6)) with
+  | SPos | SZero => I.sub prec (I.fromZ prec 2) (PhiI_series x)
+  | SNeg => PhiI_series x
+  | SUnk => I.nai
+  end.
